@@ -246,49 +246,100 @@ def _focused_case(run_seed, cfg, case):
     return case
 
 
+_OPEN_RE = None
+
+
+def nesting_depth(text):
+    """Maximum nesting depth of block constructs in a source text (approximate, line based):
+    used only to tell the known exponential-backtracking case apart from other time-outs."""
+    import re
+
+    global _OPEN_RE
+    if _OPEN_RE is None:
+        _OPEN_RE = (
+            re.compile(r"^\s*(\d+\s+)?(\w+\s*:\s*)?(do\b|if\s*\(.*\)\s*then\b|select\b|"
+                       r"associate\b|block\b(?!\s*data)|critical\b|forall\s*\(.*\)\s*$|"
+                       r"where\s*\(.*\)\s*$)", re.I),
+            re.compile(r"^\s*(\d+\s+)?end\s*(do|if|select|associate|block|critical|forall|"
+                       r"where)\b", re.I),
+            re.compile(r"^\s*(\d+\s+)?(\w+\s*:\s*)?do\s+(\d+)\b", re.I))
+    opener, closer, dolab = _OPEN_RE
+    depth = deepest = 0
+    labels = []
+    for ln in text.split("\n"):
+        m = dolab.match(ln)
+        if m:
+            labels.append(m.group(3))
+            depth += 1
+        elif opener.match(ln):
+            depth += 1
+        elif closer.match(ln):
+            depth = max(0, depth - 1)
+        else:
+            m = re.match(r"^\s*(\d+)\s", ln)
+            if m and m.group(1) in labels:
+                depth = max(0, depth - labels.count(m.group(1)))
+                labels = [x for x in labels if x != m.group(1)]
+        deepest = max(deepest, depth)
+    return deepest
+
+
 def _nest_case(sw, case):
     """Deep nests of loops and IF constructs whose innermost closer is damaged: the parser's
     backtracking must stay within the time bound (no exponential retry of enclosing rules)."""
     depth = sw.randrange(3, 6)
     nif = sw.randrange(0, 4)
-    kind = sw.choice(["labelled", "labelled", "shared", "block", "named", "mixed"])
-    lines = ["program nest", "integer :: i1, i2, i3, i4, i5", "real :: a(10), x"]
-    closers = []
+    guard = sw.random() < 0.6     # IF constructs enclose the inner loop (else: siblings before it)
+    kind = sw.choice(["labelled", "labelled", "labelled", "shared", "block", "named", "mixed"])
+    head = ["program nest", "integer :: i1, i2, i3, i4, i5", "real :: a(10), x"]
+    opening = []
+    closing = []   # closers in the order they must appear after the innermost body
     ind = ""
+    innermost_loop_closer = None
     for d in range(1, depth + 1):
         k = kind if kind != "mixed" else sw.choice(["labelled", "block", "named"])
         lab = 10 * d if k != "shared" else 99
         if k in ("labelled", "shared"):
-            lines.append(ind + "do %d i%d = 1, 3" % (lab, d))
-            if k == "shared":
-                if d == 1:
-                    closers.append("%d continue" % lab)
-            else:
-                closers.append("%d continue" % lab)
+            opening.append(ind + "do %d i%d = 1, 3" % (lab, d))
+            closer = "%d continue" % lab if (k != "shared" or d == 1) else None
         elif k == "named":
-            lines.append(ind + "lp%d: do i%d = 1, 3" % (d, d))
-            closers.append("end do lp%d" % d)
+            opening.append(ind + "lp%d: do i%d = 1, 3" % (d, d))
+            closer = "end do lp%d" % d
         else:
-            lines.append(ind + "do i%d = 1, 3" % d)
-            closers.append("end do")
+            opening.append(ind + "do i%d = 1, 3" % d)
+            closer = "end do"
         ind += " "
+        level_closers = []
         for j in range(nif):
-            lines.append(ind + "if (x > %d.0) then" % j)
-            lines.append(ind + " x = x + %d.0" % d)
-            lines.append(ind + "end if")
-    lines.append(ind + "a(1) = x")
+            opening.append(ind + "if (x > %d.0) then" % j)
+            if guard:
+                ind += " "
+                level_closers.append("end if")
+            else:
+                opening.append(ind + " x = x + %d.0" % d)
+                opening.append(ind + "end if")
+        # closers of this level come after everything nested inside it
+        closing.append((level_closers, closer))
+        if closer is not None:
+            innermost_loop_closer = closer
+    lines = head + opening + [ind + "a(1) = x"]
     body_end = len(lines)
-    for c in reversed(closers):
-        lines.append(c)
-    lines.append("end program nest")
-    how = sw.choice(["label_char", "delete_closer", "truncate", "delete_if_end", "none"])
+    closer_lines = []
+    for level_closers, closer in reversed(closing):
+        closer_lines.extend(level_closers)
+        if closer is not None:
+            closer_lines.append(closer)
+    lines += closer_lines + ["end program nest"]
+    how = sw.choice(["label_char", "label_char", "delete_closer", "truncate", "delete_if_end",
+                     "none"])
     muts = [{"kind": "nest_" + how, "changed": how != "none", "depth": depth, "ifs": nif,
-             "loops": kind}]
-    if how == "label_char" and closers:
-        k = body_end  # innermost closer
-        lines[k] = lines[k][1:] if lines[k][:1].isdigit() else lines[k] + "x"
-    elif how == "delete_closer" and closers:
-        del lines[body_end + sw.randrange(len(closers))]
+             "loops": kind, "guard": guard}]
+    if how == "label_char" and innermost_loop_closer is not None:
+        k = lines.index(innermost_loop_closer, body_end)
+        ln = lines[k]
+        lines[k] = ln[:1] + ln[2:] if ln[:2].isdigit() else ln + "x"   # '40 continue' -> '4 continue'
+    elif how == "delete_closer" and closer_lines:
+        del lines[body_end + sw.randrange(len(closer_lines))]
     elif how == "truncate":
         lines = lines[: sw.randrange(4, len(lines))]
     elif how == "delete_if_end":
@@ -589,8 +640,11 @@ def execute(case):
                     probe("system_exit_trapped")
                     violate("C06.b process-exit", outcome[1], {"phase": "parse"})
                 elif outcome[0] == "budget":
-                    violate("C06.d step-budget-exceeded", kind, {"count": outcome[1],
-                                                                 "lines": nlines})
+                    depth = nesting_depth(data.decode("utf-8", "replace"))
+                    site = "block-constructs-nested-%d-deep-or-more" % 11 if depth >= 11 else kind
+                    violate("C06.d step-budget-exceeded", site, {"count": outcome[1],
+                                                                  "lines": nlines,
+                                                                  "nesting_depth": depth})
                 elif outcome[0] == "printfail":
                     violate("C06.c print-raises", "%s@%s" % (outcome[1], outcome[2]), {})
                 elif outcome[0] == "escape":
